@@ -104,7 +104,7 @@ class Ctx:
 
     # -- bookkeeping ------------------------------------------------------------
     def out_of_time(self):
-        if self.budget_s is not None and time.time() - self.t0 > self.budget_s:
+        if self.budget_s is not None and time.time() - getattr(self, "loop_t0", self.t0) > self.budget_s:
             self.stopped_early = True
             return True
         return False
